@@ -38,7 +38,8 @@ type Stmt struct {
 	ResultFormats []int16
 	Describe      bool // send Describe(portal) in the extended protocol
 	Name          string
-	Tag           string // harness bookkeeping
+	ParamOIDs     []uint32 // parameter types declared in Parse
+	Tag           string   // harness bookkeeping
 }
 
 // StmtResult is what the client saw for one statement.
@@ -422,7 +423,7 @@ func runPgClient(conn net.Conn, script []Stmt, results []StmtResult) error {
 	for i, st := range script {
 		res := &results[i]
 		if st.Extended {
-			fe.Send(&pgproto3.Parse{Name: st.Name, Query: st.SQL})
+			fe.Send(&pgproto3.Parse{Name: st.Name, Query: st.SQL, ParameterOIDs: st.ParamOIDs})
 			if st.Describe {
 				fe.Send(&pgproto3.Describe{ObjectType: 'S', Name: st.Name})
 			}
